@@ -176,6 +176,10 @@ func (setup *SetupServerController) handleKeyExchange(in util.Container) (util.C
 	out.SetByte(TagSequence, setup.step.Byte())
 
 	data := in.GetBytes(TagEncryptedData)
+	if len(data) < 16 {
+		setup.reset()
+		return nil, errInvalidEncryptedDataLength
+	}
 	message := data[:(len(data) - 16)]
 	var mac [16]byte
 	copy(mac[:], data[len(message):]) // 16 byte (MAC)
@@ -186,7 +190,7 @@ func (setup *SetupServerController) handleKeyExchange(in util.Container) (util.C
 
 	if err != nil {
 		setup.reset()
-		log.Info.Panic(err)
+		log.Info.Println(err)
 		out.SetByte(TagErrCode, ErrCodeUnknown.Byte()) // return error 1
 	} else {
 		decryptedBuf := bytes.NewBuffer(decrypted)
@@ -232,7 +236,7 @@ func (setup *SetupServerController) handleKeyExchange(in util.Container) (util.C
 
 			signature, err := crypto.ED25519Signature(ltsk, material)
 			if err != nil {
-				log.Info.Panic(err)
+				log.Info.Println(err)
 				return nil, err
 			}
 
